@@ -85,6 +85,7 @@ type Frame struct {
 	depth    int
 	unit     string
 	ghostLoc map[string]string // ghost local variable -> sort
+	ghostTyp map[string]types.Type
 	math     bool
 	clo      map[*ssa.Alloc]*ssa.MakeClosure
 	inlineTag  string
@@ -92,6 +93,7 @@ type Frame struct {
 	paramAlias []string
 	onEntry    func(st *State)
 	exact64    bool
+	fspec      *frameSpec
 }
 
 type Exec struct {
@@ -131,6 +133,7 @@ type loopInfo struct {
 	modAll    bool
 	allocates bool
 	ghostMod  map[string]bool
+	decTerm   string
 }
 
 func isBackEdge(from, to *ssa.BasicBlock) bool {
@@ -465,7 +468,7 @@ func (x *Exec) typeReachKeys(c *ssa.CallCommon) []string {
 
 func (x *Exec) newFrame(fn *ssa.Function, ct *FuncContract, top bool, depth int) *Frame {
 	fr := &Frame{x: x, fn: fn, regs: map[ssa.Value]Val{}, ct: ct, top: top, depth: depth,
-		names: map[string]ssa.Value{}, paramVal: map[string]Val{}, ord: map[string]int{}, ghostLoc: map[string]string{}}
+		names: map[string]ssa.Value{}, paramVal: map[string]Val{}, ord: map[string]int{}, ghostLoc: map[string]string{}, ghostTyp: map[string]types.Type{}}
 	fr.loops = computeLoops(fn)
 	fr.unit = x.eng.unitName(fn)
 	for _, p := range fn.Params {
@@ -670,8 +673,23 @@ func (x *Exec) enterLoop(fr *Frame, li *loopInfo, cur *State, ins []edgeState) *
 	for _, inv := range spec.Invariants {
 		x.vc.assume(hv.pc, x.evalClause(fr, hv, inv, x.iterVars(fr, hv, li)))
 	}
+	// automatic frame invariant: what the modifies clause protects is still
+	// unchanged at the loop head (checked on entry and on every back edge)
+	if x.autoFrame(fr) && !li.modAll {
+		for _, k := range sortedKeys(li.modKeys) {
+			if g := x.frameGoal(fr, k, before); g != "" {
+				x.vc.oblige(fmt.Sprintf("%s/inv-entry:loop%d#frame:%s", fr.unit, li.ordinal, x.vc.heapNames[k]), "inv-entry", fr.unit, x.pos(li.minPos), "automatic frame invariant", before.pc, g)
+			}
+			if g := x.frameGoal(fr, k, hv); g != "" {
+				x.vc.assume(hv.pc, g)
+			}
+		}
+	}
 	for _, u := range spec.Uses {
 		x.useLemma(fr, hv, u)
+	}
+	if spec.Decreases != nil {
+		li.decTerm = x.vc.freshDef("measure", "Int", x.evalClauseInt(fr, hv, *spec.Decreases, x.iterVars(fr, hv, li)))
 	}
 	return hv
 }
@@ -781,9 +799,25 @@ func (x *Exec) backEdge(fr *Frame, li *loopInfo, from *ssa.BasicBlock, st *State
 		g := x.evalClause(fr, st, inv, x.iterVars(fr, st, li))
 		x.vc.oblige(fmt.Sprintf("%s/inv-preserved:loop%d#%s", fr.unit, li.ordinal, clauseID(inv, k)), "inv-preserved", fr.unit, x.pos(li.minPos), inv.Text, st.pc, g)
 	}
+	if spec.Decreases != nil && li.decTerm != "" {
+		m := x.evalClauseInt(fr, st, *spec.Decreases, x.iterVars(fr, st, li))
+		x.vc.oblige(fmt.Sprintf("%s/decreases:loop%d", fr.unit, li.ordinal), "decreases", fr.unit, x.pos(li.minPos), "termination measure "+spec.Decreases.Text+" decreases and is bounded below", st.pc,
+			fmt.Sprintf("(and (>= %s 0) (< %s %s))", li.decTerm, m, li.decTerm))
+	}
+	if x.autoFrame(fr) && !li.modAll {
+		for _, k := range sortedKeys(li.modKeys) {
+			if g := x.frameGoal(fr, k, st); g != "" {
+				x.vc.oblige(fmt.Sprintf("%s/inv-preserved:loop%d#frame:%s", fr.unit, li.ordinal, x.vc.heapNames[k]), "inv-preserved", fr.unit, x.pos(li.minPos), "automatic frame invariant", st.pc, g)
+			}
+		}
+	}
 	for phi, v := range saved {
 		fr.regs[phi] = v
 	}
+}
+
+func (x *Exec) autoFrame(fr *Frame) bool {
+	return fr.top && fr.ct != nil && fr.ct.HasMod && !fr.ct.ModAll && fr.entry != nil
 }
 
 func (x *Exec) execBlock(fr *Frame, b *ssa.BasicBlock, st *State, incoming map[*ssa.BasicBlock][]edgeState) {
@@ -805,6 +839,7 @@ func (x *Exec) execBlock(fr *Frame, b *ssa.BasicBlock, st *State, incoming map[*
 			x.edge(fr, b, b.Succs[0], st, incoming)
 			return
 		case *ssa.Return:
+			x.atSite(fr, st, "return", -1, nil, nil)
 			var rs []Val
 			for _, r := range i.Results {
 				v := x.value(fr, st, r)
